@@ -102,11 +102,64 @@ func c10NSObj(c *Core) *namespace.Namespace {
 	return ns
 }
 
+// c10AfterPut adds one scheduling point the storage gate does not have: directly AFTER a
+// write to a core/ record returned (the gate parks operations before they execute). It does
+// so without touching the kit: the writing goroutine issues a read of a key that never
+// exists, which is an ordinary gate point for tagged requests and a no-op otherwise.
+type c10AfterPut struct {
+	physical.Backend
+	on *bool
+}
+
+func (b *c10AfterPut) Put(ctx context.Context, e *physical.Entry) error {
+	key := e.Key
+	err := b.Backend.Put(ctx, e)
+	if *b.on && strings.Contains(key, "core/") {
+		_, _ = b.Backend.Get(ctx, c10AfterPrefix+key)
+	}
+	return err
+}
+
+type c10AfterPutTx struct {
+	c10AfterPut
+	tx physical.Transactional
+}
+
+func (b *c10AfterPutTx) BeginTx(ctx context.Context) (physical.Transaction, error) {
+	return b.tx.BeginTx(ctx)
+}
+
+func (b *c10AfterPutTx) BeginReadOnlyTx(ctx context.Context) (physical.Transaction, error) {
+	return b.tx.BeginReadOnlyTx(ctx)
+}
+
+const c10AfterPrefix = "c10-after-write/"
+
 func c10Boot(t *testing.T, r *kit.Result, rng *kit.Rand, caseID string, shamirSeal, tx, withNS bool) *c10Env {
+	return c10BootOpt(t, r, rng, caseID, shamirSeal, tx, withNS, nil)
+}
+
+// c10BootOpt: afterPoints != nil boots the core on a store with after-write scheduling points (enabled while *afterPoints).
+func c10BootOpt(t *testing.T, r *kit.Result, rng *kit.Rand, caseID string, shamirSeal, tx, withNS bool, afterPoints *bool) *c10Env {
 	e := &c10Env{t: t, r: r, rng: rng, caseID: caseID, shamir: shamirSeal, tx: tx, data: map[string]string{}, half: map[string]bool{}}
-	v, err := vBootErr(t, vOpts{Transactional: tx, ShamirSeal: shamirSeal})
+	o := vOpts{Transactional: tx, ShamirSeal: shamirSeal}
+	var probe *kit.Probe
+	if afterPoints != nil {
+		var pb physical.Backend
+		pb, probe = kit.NewInmemProbe(tx)
+		base := c10AfterPut{Backend: pb, on: afterPoints}
+		if txb, ok := pb.(physical.Transactional); ok {
+			o.Phys = &c10AfterPutTx{c10AfterPut: base, tx: txb}
+		} else {
+			o.Phys = &base
+		}
+	}
+	v, err := vBootErr(t, o)
 	if err != nil {
 		t.Fatalf("verif: boot failed: %v", err)
+	}
+	if probe != nil {
+		v.Probe = probe
 	}
 	e.v = v
 	e.root = c10Keys{term: 1}
@@ -989,14 +1042,107 @@ func (e *c10Env) opSealUnsealRoot() {
 	if e.failed {
 		return
 	}
-	e.unsealRoot(e.v)
-	if e.failed {
-		return
+	if e.rng.Chance(1, 3) {
+		e.faultedUnseal(e.v, 1+e.rng.Intn(24))
+		if e.failed {
+			return
+		}
+	}
+	if e.root.sealed {
+		e.unsealRoot(e.v)
+		if e.failed {
+			return
+		}
 	}
 	if e.ns != nil {
 		e.unsealNSChecked(e.v)
 	}
 	e.verifyHere("after seal/unseal")
+}
+
+// faultedUnseal: an unseal attempt with the valid unseal material during which the k-th
+// storage operation fails once. Whatever the attempt reports, a core that says it is
+// sealed must be sealed in full: every barrier sealed, no keyring, nothing served.
+func (e *c10Env) faultedUnseal(v *vCore, k int) {
+	var failedOp kit.Event
+	v.Probe.Tag("c10op")
+	v.Probe.FailNth(func(ev kit.Event) bool {
+		if ev.Tag != "c10op" {
+			return false
+		}
+		failedOp = ev
+		return true
+	}, k)
+	var errs []string
+	panicked := func() (p any) {
+		defer func() { p = recover() }()
+		if e.shamir {
+			_, errs = c10UnsealShares(v.Core, e.root.shares[:e.root.thr])
+		} else if err := v.Core.UnsealWithStoredKeys(c10Root); err != nil {
+			errs = append(errs, err.Error())
+		}
+		return nil
+	}()
+	fired := v.Probe.ClearFaults()
+	v.Probe.Untag()
+	if panicked != nil {
+		// outside the property's wording: recorded, the node is replaced by a restarted one
+		e.step("unseal", "unseal attempt with storage operation #%d (%s %s) failing once PANICKED: %v", k, failedOp.Op, failedOp.Key, panicked)
+		e.r.Count("observation_unseal_panicked_on_storage_fault", 1)
+		if !c10PanicNoted {
+			c10PanicNoted = true
+			e.r.Note("observation (not a verdict): Core.Unseal panics when a single storage operation fails during post-unseal mount setup (operation #%d of the unseal, %s %s): %v", k, failedOp.Op, c10KeyShape(failedOp.Key), panicked)
+		}
+		v.closed = true // its locks may be held by the unwound goroutine; it is abandoned, not shut down
+		e.root.sealed = true
+		e.opRestart()
+		e.root.sealed = false
+		return
+	}
+	e.step("unseal", "unseal attempt with valid material, storage operation #%d (%s %s) failing once (fired=%v) -> sealed=%v %v", k, failedOp.Op, c10KeyShape(failedOp.Key), fired > 0, v.Core.Sealed(), errs)
+	if fired == 0 {
+		e.r.Count("unseal_faults_not_reached", 1)
+	} else {
+		e.r.Count("unseal_faults_fired", 1)
+	}
+	if !v.Core.Sealed() {
+		e.root.sealed = false
+		e.r.Count("unseals_ok", 1)
+		return
+	}
+	e.r.Count("failed_unseal_attempts_checked", 1)
+	if !v.Core.barrier.Sealed() {
+		if fired > 0 && failedOp.Op == "get" && failedOp.Key == selfInitStatusPath {
+			// narrow signature: the read of the self-init status right after barrier.Unseal failed
+			e.r.Count("failed_unseal_left_barrier_unsealed:self-init-status-read", 1)
+			e.r.Violate(c10ClassSelfInit, e.caseID, fmt.Sprintf("[%s] the unseal's read of %s (directly after barrier.Unseal succeeded) failed on a storage fault: the unseal reports %v and the core stays sealed, but the root barrier is left unsealed (keyring in memory, barrier operations served, the next barrier.Unseal is a no-op)", e.caseID, selfInitStatusPath, errs), e.witness())
+			return
+		}
+		e.viol("sealed-core-barrier-unsealed", "an unseal attempt failed on a storage fault (operation #%d = %s %s: %v); the core reports sealed and refuses requests, but its root barrier stayed unsealed (keyring in memory, barrier operations served)", k, failedOp.Op, c10KeyShape(failedOp.Key), errs)
+		return
+	}
+	e.sealedChecksRoot(v)
+	if e.failed {
+		return
+	}
+	if e.ns != nil {
+		if nsB := v.Core.sealManager.NamespaceBarrier(c10NSPath); nsB != nil && !nsB.Sealed() {
+			e.viol("sealed-core-barrier-unsealed", "after a failed unseal attempt the core reports sealed but the namespace barrier is unsealed")
+		}
+	}
+}
+
+var c10PanicNoted bool
+
+// c10KeyShape shortens uuid-like path segments of a storage key.
+func c10KeyShape(k string) string {
+	parts := strings.Split(k, "/")
+	for i, p := range parts {
+		if len(p) >= 32 && strings.Count(p, "-") >= 4 {
+			parts[i] = "*"
+		}
+	}
+	return strings.Join(parts, "/")
 }
 
 // unsealRoot brings core v up with the currently valid unseal material.
@@ -1025,6 +1171,9 @@ func (e *c10Env) unsealRoot(v *vCore) {
 }
 
 func (e *c10Env) unsealNSChecked(v *vCore) {
+	if !e.ns.sealed {
+		return // already brought up (e.g. by the restart that replaced a panicked node)
+	}
 	if e.rng.Chance(1, 2) {
 		e.sealedChecksNS(v)
 		if e.failed {
@@ -1077,6 +1226,9 @@ func (e *c10Env) opRestart() {
 		}
 		e.t.Cleanup(v2.Close)
 		v2.Root, v2.Keys = e.v.Root, e.v.Keys
+		if v2.Probe == nil {
+			v2.Probe = e.v.Probe
+		}
 		e.step("restart", "restart (new core on the same store)")
 		e.v = v2
 		e.root.sealed = true
@@ -1369,11 +1521,275 @@ func TestVerif_C10_CoreFaults(t *testing.T) {
 			}
 		}
 	}
+	// a storage fault inside the unseal itself, k enumerated
+	for _, sh := range []bool{false, true} {
+		for k := 1; k <= kit.N(20, 60); k++ {
+			idx++
+			if idx%nshards != shard {
+				continue
+			}
+			s := "stored"
+			if sh {
+				s = "shamir"
+			}
+			caseID := fmt.Sprintf("cf:%s:unseal:%d", s, k)
+			if !kit.WantCase(caseID) {
+				continue
+			}
+			rng := kit.NewRand(seed, 6_500_000+uint64(idx))
+			e := c10Boot(t, r, rng, caseID, sh, idx%2 == 0, k%2 == 0)
+			e.opWrite("root", "raw")
+			e.opWrite("root", "api")
+			if e.ns != nil {
+				e.opWrite("ns", "raw")
+			}
+			if !e.failed {
+				if err := TestCoreSeal(e.v.Core); err != nil {
+					e.viol("seal-failed", "seal: %v", err)
+				}
+				e.root.sealed = true
+				if e.ns != nil {
+					e.ns.sealed = true
+				}
+			}
+			before := r.Get("unseal_faults_fired")
+			if !e.failed {
+				e.faultedUnseal(e.v, k)
+			}
+			r.Eval(1)
+			if r.Get("unseal_faults_fired") > before {
+				r.Nontrivial(caseID)
+			}
+			if !e.failed && e.root.sealed {
+				e.unsealRoot(e.v)
+			}
+			if !e.failed && e.ns != nil {
+				e.unsealNSChecked(e.v)
+			}
+			e.verifyHere("after a failed unseal attempt and a clean one")
+			if !e.failed {
+				e.opWrite("root", "raw")
+			}
+			e.v.Close()
+			if c10Unexpected(r) > 30 {
+				return
+			}
+		}
+	}
+	r.Require("unseal_faults_fired", int64(24/nshards))
+	r.Require("failed_unseal_attempts_checked", int64(18/nshards))
 	r.Require("faults_fired", int64(45/nshards))
 	r.Require("key_operations_failed_by_fault", int64(45/nshards))
 	r.Require("key_operations_failed_by_fault:rotate", int64(9/nshards))
 	r.Require("failed_key_operations_followed_by_seal_unseal_and_read_back", int64(24/nshards))
 	r.Require("generate_root_with_foreign_share_refused", int64(30/nshards))
+}
+
+// ---------------------------------------------------------------- concurrent key operations (schedules)
+
+type c10Scenario struct {
+	name   string
+	shamir bool
+	scope  string
+	ops    []string // rotate | root-rotate | rekey-sm | write
+}
+
+func c10Scenarios() []c10Scenario {
+	return []c10Scenario{
+		{"root-rotate|root-rotate", true, "root", []string{"root-rotate", "root-rotate"}},
+		{"root-rotate|root-rotate", false, "root", []string{"root-rotate", "root-rotate"}},
+		{"root-rotate|root-rotate@ns", false, "ns", []string{"root-rotate", "root-rotate"}},
+		{"root-rotate|rotate|write", true, "root", []string{"root-rotate", "rotate", "write"}},
+		{"root-rotate|rekey-sm", true, "root", []string{"root-rotate", "rekey-sm"}},
+		{"rekey-sm|root-rotate@ns", true, "ns", []string{"rekey-sm", "root-rotate"}},
+		{"rotate|rotate|write", false, "root", []string{"rotate", "rotate", "write"}},
+		{"root-rotate|root-rotate|rotate", false, "root", []string{"root-rotate", "root-rotate", "rotate"}},
+	}
+}
+
+func TestVerif_C10_CoreSchedules(t *testing.T) {
+	seed := kit.Seed(10)
+	shard, nshards := kit.Shard()
+	r := kit.NewResult(t, "c10-core-schedules", seed, "two or three key operations on the same barrier (root-key rotation, encryption-key rotation, rekey, a barrier write) issued concurrently under the storage-operation gate (scheduling points: directly before and directly after each of their writes to core/ records): all interleavings with <=2 preemptions up to a run cap, then seeded PCT schedules; every operation must report success, then the barrier is sealed and unsealed with the currently valid shares and everything written earlier reads back, fresh writes carry 1+successful rotations as term. A schedule is distinct by its (tag,op) order hash; it is non-trivial when the requests overlapped or one was judged blocked on a lock while another was parked")
+	defer r.Write(t)
+	for si, sc := range c10Scenarios() {
+		if si%nshards != shard {
+			continue
+		}
+		rng := kit.NewRand(seed, 7_000_000+uint64(si))
+		tx := si%2 == 0
+		pre := fmt.Sprintf("cs:%d:%s", si, sc.name)
+		var e *c10Env
+		afterPoints := new(bool)
+		fresh := func() {
+			if e != nil {
+				e.v.Close()
+			}
+			*afterPoints = false
+			e = c10BootOpt(t, r, rng, pre, sc.shamir, tx, sc.scope == "ns", afterPoints)
+			e.opWrite("root", "raw")
+			e.opWrite("root", "api")
+			if e.ns != nil {
+				e.opWrite("ns", "raw")
+				e.opWrite("ns", "api")
+			}
+		}
+		fresh()
+		run := func(pol kit.Policy, caseID string) (kit.Schedule, bool) {
+			if e.failed {
+				fresh()
+			}
+			e.caseID = caseID
+			e.v.WaitQuiet(5*time.Millisecond, 500*time.Millisecond)
+			type res struct {
+				err    error
+				shares [][]byte
+			}
+			out := make([]res, len(sc.ops))
+			ks := e.keys(sc.scope)
+			oldShares, oldThr := ks.shares, ks.thr
+			_, nsObj := e.nsCtx(sc.scope)
+			var reqs []kit.Req
+			for i, op := range sc.ops {
+				i, op := i, op
+				reqs = append(reqs, kit.Req{Tag: fmt.Sprintf("%s%d", op, i), Fn: func() {
+					switch op {
+					case "rotate":
+						out[i].err = e.v.Core.sealManager.RotateBarrierKey(c10Root, nsObj)
+					case "root-rotate":
+						out[i].err = e.v.Core.sealManager.RotateBarrierRootKey(c10Root, nsObj)
+					case "rekey-sm":
+						out[i].shares, out[i].err = e.opRekey(sc.scope, "sm", 3, 2, false)
+					case "write":
+						st, _ := e.storage(e.v, sc.scope)
+						out[i].err = st.Put(c10Root, &logical.StorageEntry{Key: "c10/raw/concurrent", Value: []byte(caseID)})
+					}
+				}})
+			}
+			*afterPoints = true
+			sched := e.v.Probe.RunGated(reqs, pol, kit.GateOpts{Filter: func(ev kit.Event) bool {
+				if ev.Op == "get" {
+					return strings.HasPrefix(ev.Key, c10AfterPrefix) // the point directly after a core/ write returned
+				}
+				return (ev.Op == "put" || ev.Op == "delete" || ev.Op == "commit") && (strings.Contains(ev.Key, "core/") || strings.Contains(ev.Key, "c10/raw/concurrent") || ev.Op == "commit")
+			}})
+			*afterPoints = false
+			r.Eval(1)
+			if sched.TimedOut {
+				r.Inconc("%s: gate watchdog expired", caseID)
+				e.failed = true
+				return sched, true
+			}
+			if sched.Overlap() || sched.Blocked > 0 {
+				r.Nontrivial(sc.name + sched.Hash())
+			}
+			if sched.Overlap() {
+				r.Count("overlapping_schedules", 1)
+			}
+			r.Count("blocked_hints", sched.Blocked)
+			e.step("concurrent", "%s under schedule %s", sc.name, sched.String())
+			for i, op := range sc.ops {
+				if out[i].err != nil {
+					e.viol("key-op-failed", "%s (request %d of %s) on a fault-free store under schedule %s: %v", op, i, sc.name, sched.String(), out[i].err)
+					return sched, c10Unexpected(r) < 20
+				}
+				switch op {
+				case "rotate":
+					ks.term++
+					e.r.Count("rotations", 1)
+				case "root-rotate":
+					e.r.Count("root_rotations", 1)
+				case "write":
+					e.data[sc.scope+"|raw|c10/raw/concurrent"] = caseID
+				}
+			}
+			_, _ = oldShares, oldThr
+			e.keyOps++
+			// seal + unseal with the currently valid shares, read everything back
+			if sc.scope == "root" {
+				if err := TestCoreSeal(e.v.Core); err != nil {
+					e.viol("seal-failed", "seal: %v", err)
+					return sched, true
+				}
+				e.root.sealed = true
+				if e.ns != nil {
+					e.ns.sealed = true
+				}
+				var ok bool
+				var errs []string
+				if e.shamir {
+					ok, errs = c10UnsealShares(e.v.Core, e.root.shares[:e.root.thr])
+				} else {
+					uerr := e.v.Core.UnsealWithStoredKeys(c10Root)
+					ok = uerr == nil && !e.v.Core.Sealed()
+					if uerr != nil {
+						errs = append(errs, uerr.Error())
+					}
+				}
+				if !ok {
+					e.viol("valid-key-refused-after-concurrent-key-operations", "%s completed (all requests reported success) under schedule %s; after seal the core stays sealed with the currently valid unseal material: %v", sc.name, sched.String(), errs)
+					return sched, c10Unexpected(r) < 20
+				}
+				e.root.sealed = false
+				if e.ns != nil {
+					if ok, errs := c10UnsealNS(e.v.Core, e.ns.shares[:e.ns.thr]); !ok {
+						e.viol("valid-key-refused", "namespace stays sealed after a core seal/unseal: %v", errs)
+						return sched, true
+					}
+					e.ns.sealed = false
+				}
+			} else {
+				if err := e.v.Core.namespaceStore.SealNamespace(c10Root, c10NSPath); err != nil {
+					e.viol("seal-failed", "seal namespace: %v", err)
+					return sched, true
+				}
+				e.ns.sealed = true
+				if ok, errs := c10UnsealNS(e.v.Core, e.ns.shares[:e.ns.thr]); !ok {
+					e.viol("valid-key-refused-after-concurrent-key-operations", "%s completed (all requests reported success) under schedule %s; after seal the namespace stays sealed with its currently valid shares: %v", sc.name, sched.String(), errs)
+					return sched, c10Unexpected(r) < 20
+				}
+				e.ns.sealed = false
+			}
+			r.Count("schedules_followed_by_seal_unseal", 1)
+			e.verifyHere("after concurrent " + sc.name + " and seal/unseal")
+			if !e.failed {
+				e.opWrite(sc.scope, "raw")
+			}
+			return sched, c10Unexpected(r) < 20
+		}
+		ex := &kit.Explorer{MaxPreempt: 2, MaxRuns: kit.N(14, 120)}
+		n := 0
+		ex.Explore(func(pol kit.Policy) (kit.Schedule, bool) {
+			n++
+			caseID := fmt.Sprintf("%s:ex:%d", pre, n)
+			if !kit.WantCase(caseID) {
+				return kit.Schedule{Diverged: true}, true
+			}
+			return run(pol, caseID)
+		})
+		r.Count("explorer_runs", ex.Runs)
+		var tags []string
+		for i, op := range sc.ops {
+			tags = append(tags, fmt.Sprintf("%s%d", op, i))
+		}
+		for k := 0; k < kit.N(12, 80); k++ {
+			caseID := fmt.Sprintf("%s:pct:%d", pre, k)
+			if !kit.WantCase(caseID) {
+				continue
+			}
+			prng := kit.NewRand(seed, 7_100_000+uint64(si*1000+k))
+			if _, cont := run(kit.NewPCT(prng, tags, 3, 12), caseID); !cont {
+				break
+			}
+		}
+		if si < 2 {
+			r.Sample(map[string]any{"scenario": sc.name, "shamir": sc.shamir, "last_steps": e.steps[max(0, len(e.steps)-4):]})
+		}
+		e.v.Close()
+	}
+	r.Require("schedules_followed_by_seal_unseal", int64(90/nshards))
+	r.Require("root_rotations", int64(90/nshards))
+	r.Require("entries_read_back", int64(600/nshards))
 }
 
 // ---------------------------------------------------------------- crash prefixes
@@ -1452,11 +1868,12 @@ func c10Cases() []c10Case {
 const (
 	c10ClassF6    = "C10-F6-crash-between-stored-keys-and-keyring-write"
 	c10ClassNSKek = "C10-ns-rekey-overwrites-root-shamir-kek"
+	c10ClassSelfInit = "C10-unseal-error-at-self-init-check-leaves-barrier-unsealed"
 )
 
 // c10Unexpected counts violations outside the two narrow signatures that do not stop exploration.
 func c10Unexpected(r *kit.Result) int {
-	return r.NViolations() - int(r.Get("violations:"+c10ClassF6)) - int(r.Get("violations:"+c10ClassNSKek))
+	return r.NViolations() - int(r.Get("violations:"+c10ClassF6)) - int(r.Get("violations:"+c10ClassNSKek)) - int(r.Get("violations:"+c10ClassSelfInit))
 }
 
 type c10JW struct {
